@@ -41,11 +41,18 @@ func genC03(tier string, seed uint64, idx int) *simkit.Plan {
 		nops = rng.Range(1, 4)
 		keys = rng.Range(1, 2)
 	}
+	// one plan in 48 has a history around 1024 operations: the index file then ends on, just before or just
+	// after a read-batch boundary of the index walkers when the crash happens
+	long := !exhaustive && rng.Chance(1, 48)
+	if long {
+		nops = 1021 + rng.Intn(8)
+		keys = 3000
+	}
 	// empty payloads only in a fraction of the plans: they run into a recorded
 	// finding (known_findings.json) that ends the run at the first crash point
 	empties := rng.Chance(1, 8)
 	for i := 0; i < nops; i++ {
-		if rng.Chance(1, 4) {
+		if !long && rng.Chance(1, 4) { // (a long history is all uploads: one index entry per operation)
 			p.Add(simkit.St("d", rng.Uint64(), "key", 1+rng.Intn(keys)))
 			continue
 		}
@@ -55,13 +62,16 @@ func genC03(tier string, seed uint64, idx int) *simkit.Plan {
 			s.A["name"] = int64([]int{0, 3}[rng.Intn(2)])
 			s.A["mime"] = 0
 			s.A["pairs"] = 0
+		} else if long {
+			s.A["size"] = int64(rng.Range(1, 16))
+			s.A["name"], s.A["mime"], s.A["pairs"] = 0, 0, 0
 		} else if s.A["size"] > 4096 {
 			s.A["size"] = 4096
 		}
 		if s.A["size"] == 0 && !empties {
 			s.A["size"] = int64(rng.Range(1, 9))
 		}
-		if rng.Chance(1, 10) {
+		if !long && rng.Chance(1, 10) {
 			s.A["dup"] = 1 // may produce an identical rewrite (unchanged path)
 		}
 		p.Add(s)
